@@ -232,6 +232,37 @@ FFsF(u) == { [blocks |-> Blocks3, links |-> ls] : ls \in PartFFs }
 CasesDevNoAtomResname(u) == { MkCaseB(2, {{1, 2}}, NoLab({{1, 2}}), <<"C", "C">>, NoLabs(2), Blocks3,
                                       << Lk(<<Z, P1>>, <<AtR(1, "a1", OA), AtN(1, "a2"), AtR(2, "a1", AC)>>, <<Angle(1, 2, 3, "0.2")>>) >>) }
 
+(* ---- family R (independent seed4-C02-1): blocks that repeat an atom name (legal in .itp blocks, which are keyed by atom index) *)
+BlkD == [atoms |-> << [atomname |-> "d1", atype |-> "TA", resname |-> "D"], [atomname |-> "s", atype |-> "SA", resname |-> "D"], [atomname |-> "s", atype |-> "SB", resname |-> "D"] >>,
+         inters |-> << Bond(1, 2, "0.1"), Bond(1, 3, "0.11") >>]                       \* the two s differ in type
+BlkE == [atoms |-> << [atomname |-> "d1", atype |-> "TA", resname |-> "E"], [atomname |-> "s", atype |-> "SA", resname |-> "E"], [atomname |-> "s", atype |-> "SA", resname |-> "E"] >>,
+         inters |-> << Bond(1, 2, "0.1"), Bond(1, 3, "0.11") >>]                       \* the two s are indistinguishable
+BlocksDE == [D |-> BlkD, E |-> BlkE]
+DE == <<"D", "E">>
+OD == <<"D">>
+SA == <<"SA">>
+SB == <<"SB">>
+RepFFs == {
+  << Lk(<<Z, P1>>, <<AtR(1, "s", DE), AtR(2, "d1", DE)>>, <<Bond(1, 2, "0.2")>>) >>,                                        \* by name only: two candidates, never applies
+  << Lk(<<Z, P1>>, <<WithSel(AtR(1, "s", DE), "atype", SA), AtR(2, "d1", DE)>>, <<Bond(1, 2, "0.2")>>) >>,                   \* unique in D (the FIRST s), ambiguous in E
+  << Lk(<<Z, P1>>, <<WithSel(AtR(1, "s", DE), "atype", SB), AtR(2, "d1", DE)>>, <<Bond(1, 2, "0.2")>>) >>,                   \* unique in D (the last s), absent in E
+  << Lk(<<Z, GT>>, <<AtR(1, "d1", DE), WithSel(AtR(2, "s", DE), "atype", SA)>>, <<Bond(1, 2, "0.2")>>) >>,                   \* the repeated name on the far residue
+  << Lk(<<Z, P1>>, <<WithSel(AtR(1, "s", OD), "atype", SA), WithSel(AtR(1, "s", OD), "atype", SB), AtR(2, "d1", DE)>>, <<Angle(1, 3, 2, "0.2")>>) >>,   \* both s of one residue in one link
+  << Lk(<<Z, ST>>, <<WithRep(WithSel(AtR(1, "s", DE), "atype", SA), "atype", "X"), AtR(2, "d1", DE)>>, <<Bond(1, 2, "0.2")>>) >>,
+  << Lk(<<Z, P1>>, <<WithSel(AtR(1, "s", DE), "atype", SA), AtR(2, "d1", DE)>>, <<Bond(1, 2, "0.2")>>),
+     LkF(<<Z>>, <<WithDel(WithSel(AtR(1, "s", OD), "atype", SA))>>, <<>>, <<>>, <<NE(1, 1, "d1", DE)>>, <<>>) >>,            \* the first s of a chain end is removed
+  << Lk(<<Z, P1>>, <<WithSel(AtR(1, "s", DE), "atomname", <<"s", "d1">>), AtR(2, "d1", DE)>>, <<Bond(1, 2, "0.2")>>) >> }      \* choice of names: three candidates
+RepDang == { [D |-> WithDang(BlkD, dd), E |-> WithDang(BlkE, de)] :
+               dd \in { << Dg("bonds", <<1, 3>>, "0.2") >>, << Dg("bonds", <<2, 3>>, "0.2") >> },      \* first s / last s of D to +d1
+               de \in { << >>, << Dg("bonds", <<1, 3>>, "0.3") >> } }                                    \* an s of E to +d1: indistinguishable from the other
+NamesDE(n) == [1..n -> {"D", "E"}]
+GsR(u) == UNION { UNION { { <<n, es, nm, NoLab(es), NoLabs(n)>> : nm \in NamesDE(n) } : es \in Graphs(n) } : n \in 1..3 }
+FFsR(u) == { [blocks |-> BlocksDE, links |-> ls] : ls \in RepFFs } \cup { [blocks |-> bl, links |-> ItpLinksOf(bl.D) \o ItpLinksOf(bl.E)] : bl \in RepDang }
+CasesDevLastOfName(u) == { MkCaseB(2, {{1, 2}}, NoLab({{1, 2}}), <<"D", "D">>, NoLabs(2), BlocksDE,
+                                   << Lk(<<Z, P1>>, <<WithSel(AtR(1, "s", DE), "atype", SA), AtR(2, "d1", DE)>>, <<Bond(1, 2, "0.2")>>) >>),
+                           MkCaseB(2, {{1, 2}}, NoLab({{1, 2}}), <<"E", "E">>, NoLabs(2), BlocksDE,
+                                   << Lk(<<Z, P1>>, <<AtR(1, "s", DE), AtR(2, "d1", DE)>>, <<Bond(1, 2, "0.2")>>) >>) }
+
 (* ---- family N (independent seed C10-2): node keys that are a permutation of the residue ids *)
 GsN(u) == NonId(WithPerms(GN(3))) \cup NonId(WithPerms({g \in GN(4) : g[1] = 4 /\ AllA(g) /\ Cardinality(g[2]) <= 4}))
 FFsN(u) == FFof({ << >>, << LB(P1, "0.2") >>, << LB(GT, "0.2") >>, << LA(ST, "0.2") >>, << LB(GT, "0.2"), TermDel >> })
@@ -304,12 +335,13 @@ GateExport == PrintT(<<"CASE", ToJson([top |-> case.top, co |-> case.co,
                                        must_refuse |-> GateMustRefuse(ExpandTop(case.top), case.co), must_pass |-> GateMustPass(ExpandTop(case.top))])>>)
 
 (* ---- the family of this run *)
-FamGs == CASE Fam = "A" -> GsA(0) [] Fam = "B" -> GsB(0) [] Fam = "C" -> GsC(0) [] Fam = "D" -> GsD(0) [] Fam = "E" -> GsE(0) [] Fam = "M" -> GsM(0) [] Fam = "F" -> GsF(0) [] Fam = "N" -> GsN(0) [] OTHER -> {}
-FamFFs == CASE Fam = "A" -> FFsA(0) [] Fam = "B" -> FFsB(0) [] Fam = "C" -> FFsC(0) [] Fam = "D" -> FFsD(0) [] Fam = "E" -> FFsE(0) [] Fam = "M" -> FFsM(0) [] Fam = "F" -> FFsF(0) [] Fam = "N" -> FFsN(0) [] OTHER -> {}
+FamGs == CASE Fam = "A" -> GsA(0) [] Fam = "B" -> GsB(0) [] Fam = "C" -> GsC(0) [] Fam = "D" -> GsD(0) [] Fam = "E" -> GsE(0) [] Fam = "M" -> GsM(0) [] Fam = "F" -> GsF(0) [] Fam = "N" -> GsN(0) [] Fam = "R" -> GsR(0) [] OTHER -> {}
+FamFFs == CASE Fam = "A" -> FFsA(0) [] Fam = "B" -> FFsB(0) [] Fam = "C" -> FFsC(0) [] Fam = "D" -> FFsD(0) [] Fam = "E" -> FFsE(0) [] Fam = "M" -> FFsM(0) [] Fam = "F" -> FFsF(0) [] Fam = "N" -> FFsN(0) [] Fam = "R" -> FFsR(0) [] OTHER -> {}
 FamCases == CASE Fam \in {"A", "B", "C", "D"} -> {}
               [] Fam = "M" -> PlainF({g \in GsM(0) : g[1] <= 3}, FFsM(0))
               [] Fam = "F" -> PlainF({g \in GsF(0) : g[1] <= 2 \/ g[6] \in {<<1, 2, 3>>, <<2, 1, 3>>, <<3, 1, 2>>}}, FFsF(0))
               [] Fam = "N" -> PlainF({g \in GsN(0) : g[1] <= 3}, FFsN(0))
+              [] Fam = "R" -> PlainF(GsR(0), FFsR(0)) [] Fam = "devLastOfName" -> CasesDevLastOfName(0)
               [] Fam = "devNoAtomResname" -> CasesDevNoAtomResname(0) [] Fam = "devOrderedPairs" -> CasesDevOrderedPairs(0)
               [] Fam = "E" -> PlainF(GsE(0), FFsE(0))      \* exported families are enumerated chunk by chunk, see XNext
               [] Fam = "small" -> CasesSmall(0) [] Fam = "tiny" -> CasesTiny(0) [] Fam = "small4" -> CasesSmall4(0) [] Fam = "gate" -> {} [] Fam = "missing" -> CasesMissing(0) [] Fam = "missingS" -> Plain({g \in GN(2) : TRUE}, { << >> })
@@ -318,7 +350,7 @@ FamCases == CASE Fam \in {"A", "B", "C", "D"} -> {}
               [] Fam = "devPattern" -> CasesDevPattern(0) [] Fam = "devKeepRemoved" -> CasesDevKeepRemoved(0) [] Fam = "devF13" -> CasesDevF13(0)
               [] Fam = "devDegree" -> CasesDevDegree(0) [] Fam = "devVerKey" -> CasesDevVerKey(0)
               [] Fam = "devAll" -> CasesDevMono(0) \cup CasesDevOrder(0) \cup CasesDevLinktype(0) \cup CasesDevFirstWins(0) \cup CasesDevAmbig(0) \cup CasesDevNonEdge(0)
-                                   \cup CasesDevPattern(0) \cup CasesDevKeepRemoved(0) \cup CasesDevVerKey(0) \cup CasesDevNoAtomResname(0) \cup CasesDevOrderedPairs(0) \cup CasesDevF13(0) \cup CasesDevDegree(0)
+                                   \cup CasesDevPattern(0) \cup CasesDevKeepRemoved(0) \cup CasesDevVerKey(0) \cup CasesDevNoAtomResname(0) \cup CasesDevOrderedPairs(0) \cup CasesDevLastOfName(0) \cup CasesDevF13(0) \cup CasesDevDegree(0)
 
 (* ---- export for the S->I replay: one root state, one chunk state per residue graph (spread over the workers), one state per case *)
 GSeq == SetToSeq(FamGs)
